@@ -32,6 +32,9 @@ def signature(o):
                     missing.remove(x)
             sig["extra_all_helper"] = bool(extra) and all(HELPER.match(x or "") for x in extra)
             sig["missing"] = len(missing)
+            # name shadowing: the final frame holds an unnamed (shadowed) column
+            sig["frame_has_unnamed"] = any(e is None for e in exp)
+            sig["arity_delta"] = len(act) - len(exp)
     if sig["kind"] == "arity":
         # C06 form: the two programs' SQL texts disagree in arity
         m = re.search(r"base SQL returns (\[.*?\]), rewritten returns (\[.*?\])", det)
